@@ -18,7 +18,7 @@ RULE = ("A tree of depth 1-3 (canonical or with explicit defaults / empty sub-fi
         "IS the stored payload afterwards, creates exactly the missing path, and the full content equals the dict "
         "after every step; results with and without start_pos agree. Non-trivial: >=3 writes, >=1 read of a "
         "never-written point, >=1 aliased write through a handle obtained >=2 steps earlier. Distinct = SHA-1 of case.")
-ASSUMPTIONS = ["start_pos is legal: coords[start_pos] <= coord (asserted by getPayload)",
+ASSUMPTIONS = ["start_pos is legal: 0, or coords[start_pos] <= coord (asserted by getPayload); plain or boxed",
                "only the listed accessors run, so no handle is ever detached by a removal"]
 
 KINDS = ["read", "read", "read_prefix", "read_noalloc", "ref", "ref", "ref", "handle", "handle", "position",
@@ -53,6 +53,8 @@ def apply_write(mdl, pt, act, v, default):
         new = cur * v
     elif act == 4:
         new = default
+    elif act == 5:
+        new = cur - v
     else:
         return
     if new == default:
@@ -73,6 +75,8 @@ def do_write(ref, act, v, default, as_element=False):
         ref *= v
     elif act == 4:
         ref <<= default
+    elif act == 5:
+        ref -= v
     return ref
 
 
@@ -109,6 +113,12 @@ def check(case, rec):
             same(before, f"getPayload{pt}")
             if pt not in written:
                 nfresh_reads += 1
+            if stored_obj(m.root, pt) is ABSENT and o["sel"][3] % 3 == 0:
+                # the value handed out for an absent point is the caller's to keep: updating it in place writes
+                # nothing, and later reads of never-written points still return the default
+                got += 7
+                same(before, f"an in-place update of the value read at the absent point {pt}")
+                rec.cls("scribbled-on-default")
         elif k == "read_prefix":
             if d == 1:
                 continue
@@ -162,7 +172,7 @@ def check(case, rec):
             if now_tree != exp_tree:
                 raise Violation("ref-path", f"step {step}: getPayloadRef{pt} turned {before_tree} into {now_tree}, "
                                 f"expected {exp_tree}")
-            act = o["mode"] % 5
+            act = o["mode"] % 6
             # keep the name the in-place operator rebinds, as user code does (z_ref += v; ...; z_ref += w)
             ref = do_write(ref, act, o["val"], default, as_element=(o["sel"][3] % 4 == 3 and act in (2, 3)))
             apply_write(mdl, pt, act, o["val"], default)
@@ -175,7 +185,7 @@ def check(case, rec):
                 continue
             hi = o["sel"][0] % len(handles)
             pt, ref, at = handles[hi]
-            act = 1 + o["mode"] % 3
+            act = [1, 2, 3, 5][o["mode"] % 4]
             handles[hi] = (pt, do_write(ref, act, o["val"], default), at)
             apply_write(mdl, pt, act, o["val"], default)
             nwrites += 1
@@ -226,11 +236,13 @@ def check(case, rec):
             if lvl < d - 1 or not f.coords:
                 continue
             c = o["sel"][0] % m.shape[lvl]
-            legal = [p for p in range(len(f.coords)) if f.coords[p] <= c]
-            if not legal:
-                continue
+            # (the accessors assert coords[start_pos] <= coord for a non-zero start_pos; 0 is always accepted)
+            legal = sorted({0} | {p for p in range(len(f.coords)) if f.coords[p] <= c})
             sp = legal[o["sel"][1] % len(legal)]
-            which = o["mode"] % 3
+            if o["sel"][2] % 2:
+                sp = Payload(sp)            # documented: "scalar or Payload() containing a scalar"
+                rec.cls("boxed-start-pos")
+            which = o["mode"] % 4
             before = frozen()
             if which == 0:
                 a = f.getPayload(c, start_pos=sp)
@@ -244,6 +256,13 @@ def check(case, rec):
                 if a != b:
                     raise Violation("start-pos", f"step {step}: getPosition({c}, start_pos={sp}) = {a} but {b} without")
                 same(before, "getPosition with start_pos")
+            elif which == 3:
+                a = f.getPositionRef(c, start_pos=sp)
+                b = f.getPositionRef(c)
+                if a != b or f.coords[a] != c:
+                    raise Violation("start-pos", f"step {step}: getPositionRef({c}, start_pos={sp}) = {a} but {b} without")
+                if f.coords != sorted(set(f.coords)):
+                    raise Violation("start-pos", f"step {step}: getPositionRef with start_pos left coords {f.coords}")
             else:
                 present = c in f.coords
                 a = f.getPayloadRef(c, start_pos=sp)
